@@ -457,6 +457,13 @@ def _run(ctx):
         for i in idxs:
             for w in widths_for(ctx, bank, i, n_w):
                 cases.append(dict(desc=d, i=i, w=w, kind=d["kind"], bank=bank))
+                if r.random() < 0.25 and w >= 4:
+                    # a second width whose FULL response has as many bins as this width's HALF response (and the
+                    # other way round), asked of the same bank right afterwards: same sizes, different bin frequencies
+                    w2 = r.choice([w // 2 + 1 if w % 2 == 0 else (w + 1) // 2, 2 * w - 2, 2 * w - 1])
+                    if w2 >= 2:
+                        cases.append(dict(desc=d, i=i, w=w2, kind=d["kind"], bank=bank))
+                        ctx.count("adversarial:same-bin-count-other-width")
     # wide Gabor / gammatone filters: whole-period branch and wrap-around below 0 / above the width
     for kind in ("gabor", "gt"):
         for _ in range(ctx.scale(14, 80)):
